@@ -88,6 +88,7 @@ class Case:
                     dtype=str(self.y.dtype) if self.y is not None else None,
                     init=self.meta.get('init'), data=self.meta.get('data'),
                     layout=self.meta.get('layout'), defaults=self.meta.get('defaults'),
+                    norms=self.meta.get('norms', 'any'),
                     scale_exp=self.meta.get('scale_exp'), opts=o,
                     trainer=self.trainer_kwargs or None)
 
@@ -548,6 +549,23 @@ def draw_case(d, kinds=None, *, degenerate=False, general_position=False,
         case.meta.update(data=pattern, scale_exp=0)
         if single:
             y = y.astype(np.complex64)
+    # observations that are unit vectors up to 1e-5 (normalised by the caller in
+    # single precision, or with a small regulariser): "any magnitude" includes
+    # magnitudes next to one.  Own stream: earlier recorded cases keep their data
+    aux2 = np.random.default_rng([seed, 778])
+    if np.iscomplexobj(y) and pattern == 'none' and scale_exp == 0 and not single \
+            and int(aux2.integers(0, 6)) == 0:
+        nrm = np.linalg.norm(y, axis=-1, keepdims=True)
+        if np.all(nrm > 0):
+            how = int(aux2.integers(0, 3))
+            if how == 0:
+                y32 = y.astype(np.complex64)
+                y = (y32 / np.linalg.norm(y32, axis=-1, keepdims=True)).astype(np.complex128)
+            elif how == 1:
+                y = y / nrm * (1 + aux2.uniform(-1e-5, 1e-5, size=nrm.shape))
+            else:
+                y = y / (nrm + 10.0 ** aux2.uniform(-8, -5))
+            case.meta['norms'] = 'near-unit'
     # memory layout of the observation: same values, other strides
     layout = ['c', 'c', 'c', 'transposed-view', 'fortran', 'strided'][int(aux.integers(0, 6))]
     case.y = relayout(y, layout)
@@ -608,6 +626,11 @@ def draw_case(d, kinds=None, *, degenerate=False, general_position=False,
             if sal_kind == 'zeros' and N >= 2:
                 idx = d.subset(N, 1, N - 1)
                 s[..., idx] = 0
+            if sal_kind != 'binary' and int(aux2.integers(0, 4)) == 0:
+                # the unit of the saliency is arbitrary ("all non-negative
+                # saliency weights with positive sum")
+                s = s * 10.0 ** aux2.uniform(-14, 4)
+                case.meta['saliency_level'] = 'scaled'
             o['saliency'] = s
         case.meta['saliency'] = sal_kind
         if kind in ('cacgmm', 'gcacgmm', 'vmfcacgmm'):
@@ -615,6 +638,9 @@ def draw_case(d, kinds=None, *, degenerate=False, general_position=False,
             o['covariance_norm'] = d.choice(['eigenvalue', 'trace', False])
             o['affiliation_eps'] = d.choice([0.0, 1e-10, 1e-3])
             o['eigenvalue_floor'] = d.choice([1e-10, 1e-10, 1e-6, 1e-3, 3e-2])
+            if int(aux2.integers(0, 4)) == 0:
+                # any clipping constant, not only the three above
+                o['affiliation_eps'] = float(10.0 ** aux2.uniform(-9, -4))
         if kind == 'cbmm':
             o['affiliation_eps'] = d.choice([0.0, 1e-10])
         if kind in ('gmm', 'gcacgmm'):
